@@ -360,14 +360,26 @@ class ProgramGen(object):
                         out.append(n)
         return sorted(out)
 
-    def fresh(self, prefix):
+    def fresh(self, prefix, allow_const=False):
         """a name no variable of this body has yet.  OAL variable names are case-sensitive (only keywords are
         not): about a quarter of the fresh names are an existing name of this body in ANOTHER letter case
         (i1 / I1, ds2 / Ds2 / DS2), i.e. a DIFFERENT variable, possibly of another kind or type, also across
         nested blocks"""
+        consts = sorted(set(n for _, cs in SPEC['consts'] for n, _, _ in cs))
+        if allow_const and self.r.random() < 0.08:
+            # an instance handle / set / loop variable / event variable NAMED LIKE a constant of the model: once declared
+            # (by select / create / for each / create event) the local variable is what the name denotes.  Not for
+            # variables declared by assignment: `MAX = 1` with no variable MAX addresses the constant, which is not
+            # a well-formed assignment
+            free = [n for n in consts if self.lookup(n) is None]
+            if free:
+                name = self.r.choice(free)
+                self.names.add(name)
+                self.stats['names_like_a_constant'] = self.stats.get('names_like_a_constant', 0) + 1
+                return name
         if self.names and self.r.random() < 0.15:
             # a name whose block has ended is unknown again: using it declares ANOTHER variable (possibly of another type)
-            gone = [n for n in sorted(self.names) if self.lookup(n) is None]
+            gone = [n for n in sorted(self.names) if self.lookup(n) is None and (allow_const or n not in consts)]
             if gone:
                 self.stats['redeclared_names'] = self.stats.get('redeclared_names', 0) + 1
                 return self.r.choice(gone)
@@ -452,6 +464,10 @@ class ProgramGen(object):
         parts = []
         for pn, pt in params:
             parts.append('%s: %s' % (pn, self.expr(pt, depth + 1, sel)[0]))
+        if len(parts) >= 2 and self.r.random() < 0.4:
+            # actual parameters are named: any order is legal, and the order written is part of the tree
+            self.r.shuffle(parts)
+            self.stats['parameters_not_in_declaration_order'] = self.stats.get('parameters_not_in_declaration_order', 0) + 1
         return ', '.join(parts) if self.r.random() < 0.8 else ','.join(parts)
 
     def invocation(self, ty, depth, sel):
@@ -634,12 +650,12 @@ class ProgramGen(object):
             return '.' + bare
         return '.' + phrase
 
-    def target_var(self, kind, kl, prefix):
+    def target_var(self, kind, kl, prefix, by_assignment=False):
         """an existing variable of exactly this kind/class (re-use) or a fresh name; declares it"""
         existing = self.visible(lambda v: v == (kind, kl))
         if existing and self.r.random() < 0.3:
             return self.r.choice(existing)
-        name = self.fresh(prefix)
+        name = self.fresh(prefix, allow_const=not by_assignment)
         self.declare(name, (kind, kl))
         return name
 
@@ -740,7 +756,7 @@ class ProgramGen(object):
                 for b in self.set_vars(self.lookup(a)[1]):      # set algebra on two sets of one class
                     srcs.append(('%s %s %s' % (a, r.choice(['|', '&', '-', '+', '^']), b), 'ins', self.lookup(a)[1]))
             src, kind, kl = r.choice(srcs)
-            name = self.target_var(kind, kl, 'h' if kind == 'int' else 'hs')
+            name = self.target_var(kind, kl, 'h' if kind == 'int' else 'hs', by_assignment=True)
             return [['s', '%s = %s' % (name, src), 'assign']]
         if k in ('attr', 'self_attr'):
             hs = self.handles() if k == 'attr' else [('self', HOME_SELF[self.home])]
